@@ -146,7 +146,7 @@ def summarise(prog, body, writers, summaries, depth):
 def ok_return_blocks(body):
     """blocks that assign `_0 = Result::Ok(..)` (success return value)"""
     out = []
-    for d in body.defs().get(0, []):
+    for d in body.ret_defs():
         if d[0] == 'assign' and d[3]['k'] == 'aggr' and d[3].get('variant') == 'Ok':
             out.append(d[1])
     return out
